@@ -155,4 +155,11 @@ ILL_TYPED = [
 	'def f(k: int) -> int:\n\tfor i in k:\n\t\tprint(i)\n\treturn 0',
 	'def f() -> None:\n\twith open() as g:\n\t\tpass',
 	'def f(xs: list[int]) -> int:\n\ta, b, c = xs\n\treturn a',
+	# well-formed literals no node class accepts (octal / binary / complex), nested and as bare module-level expression statements
+	'0o17',
+	'def f(k: int) -> int:\n\treturn k\n0b101',
+	'1j',
+	'def f(k: int) -> int:\n\tn: int = 0b101\n\treturn n + 0o7',
+	'x: int = 1\nx.y.z',
+	'import a.b.c',
 ]
